@@ -5,6 +5,7 @@
     (permutations, duplicates, late frames, op ids never issued). *)
 From Coq Require Import ZArith List.
 From FV Require Import Model.Registry Proofs.RegistryProofs.
+From FV Require Gen.CtxLockSites Model.LockPaths.
 Import ListNotations.
 Open Scope Z_scope.
 
@@ -50,6 +51,14 @@ Theorem c01_registered_iff_in_flight : forall b ops dl n evs s,
   distinct_ops ops n -> run b (init ops dl n) evs = Some s -> reg_ok ops n s.
 Proof. exact run_reg_ok. Qed.
 Print Assumptions c01_registered_iff_in_flight.
+
+(** the mutual-exclusion assumption of the model, discharged on data REGENERATED from lib/go/registry.go
+    (Gen/CtxLockSites.v): every access to the channels map on every control-flow path of Register /
+    Unregister / Execute / dispatch lies inside a matching critical section, writes inside exclusive
+    ones (see c17_guarded_accesses_never_conflict for what the discipline implies) *)
+Theorem c01_registry_guarded : LockPaths.all_guarded CtxLockSites.registry_methods = true.
+Proof. vm_compute. reflexivity. Qed.
+Print Assumptions c01_registry_guarded.
 
 (** non-vacuity: three callers; responses permuted, one duplicated, one for an unknown op id, one late *)
 Example c01_nonvacuous :
